@@ -118,18 +118,32 @@ func main() {
 		fmt.Printf("INCONCLUSIVE cannot generate the simulation build: %v\n", err)
 		exit(2)
 	}
-	bin := filepath.Join(work, "simrun")
-	args := []string{"build", "-overlay", res.OverlayPath, "-o", bin}
-	if *race {
-		args = append(args, "-race", "-gcflags=all=-d=checkptr=0")
+	build := func(withRace bool) string {
+		bin := filepath.Join(work, "simrun")
+		args := []string{"build", "-overlay", res.OverlayPath}
+		if withRace {
+			bin += "-race"
+			// sonic is instrumented, the simulator and the scenarios are not (their state is
+			// handed from task to task through a baton the detector cannot see); checkptr is
+			// off because sonic's epoll user-data cast aborts under it (C05 why_tests_cant).
+			args = append(args, "-race", "-gcflags=all=-d=checkptr=0", "-gcflags=sonicverif/...=-race=false")
+		}
+		args = append(args, "-o", bin, "./cmd/simrun")
+		cmd := exec.Command("go1.26.8", args...)
+		cmd.Dir = verifDir
+		cmd.Env = append(os.Environ(), goEnv...)
+		if out, err := cmd.CombinedOutput(); err != nil {
+			fmt.Printf("INCONCLUSIVE the simulation build of sonic does not compile (a change that needs a kernel entry point the shims lack, or a syntax error):\n%s\n", out)
+			exit(2)
+		}
+		return bin
 	}
-	args = append(args, "./cmd/simrun")
-	cmd := exec.Command("go1.26.8", args...)
-	cmd.Dir = verifDir
-	cmd.Env = append(os.Environ(), goEnv...)
-	if out, err := cmd.CombinedOutput(); err != nil {
-		fmt.Printf("INCONCLUSIVE the simulation build of sonic does not compile (a change that needs a kernel entry point the shims lack, or a syntax error):\n%s\n", out)
-		exit(2)
+	raceProps := map[string]bool{"C05": true}
+	wantRace := *race || raceProps[prop]
+	bin := build(false)
+	binRace := ""
+	if wantRace {
+		binRace = build(true)
 	}
 	buildS := time.Since(start).Seconds()
 
@@ -141,7 +155,20 @@ func main() {
 	}
 
 	if *replay != "" {
-		c := exec.Command(bin, "-replay", *replay, "-known", kfPath)
+		var hdr struct {
+			Race bool `json:"race"`
+		}
+		if b, err := os.ReadFile(*replay); err == nil {
+			json.Unmarshal(b, &hdr)
+		}
+		rbin := bin
+		if hdr.Race {
+			if binRace == "" {
+				binRace = build(true)
+			}
+			rbin = binRace
+		}
+		c := exec.Command(rbin, "-replay", *replay, "-known", kfPath)
 		c.Env = append(os.Environ(), "VERIF_REPLAY_TRACE=1")
 		c.Stdout, c.Stderr = os.Stdout, os.Stderr
 		err := c.Run()
@@ -168,25 +195,43 @@ func main() {
 	// 2. fan out
 	replayDir := filepath.Join(verifDir, "replays")
 	os.MkdirAll(replayDir, 0o755)
+	// a property with a data-race clause gets part of the workers on the race build
+	nRace := 0
+	if wantRace {
+		nRace = *nw / 2
+		if *race {
+			nRace = *nw
+		}
+	}
 	results := make([]*workerResult, *nw)
 	fails := make([]string, *nw)
+	isRace := make([]bool, *nw)
 	var wg sync.WaitGroup
 	for j := 0; j < *nw; j++ {
 		wg.Add(1)
+		isRace[j] = j >= *nw-nRace
 		go func(j int) {
 			defer wg.Done()
 			out := filepath.Join(work, fmt.Sprintf("w%d.json", j))
-			a := []string{"-prop", prop, "-tier", *tier, "-seed", fmt.Sprint(seed), "-worker", fmt.Sprint(j), "-nworkers", fmt.Sprint(*nw),
+			// race workers explore their own seeds (base seed offset) with the same generator
+			wseed, wj, wn, wbin := seed, j, *nw-nRace, bin
+			if isRace[j] {
+				wseed, wj, wn, wbin = seed+0x9e3779b9, j-(*nw-nRace), nRace, binRace
+			}
+			a := []string{"-prop", prop, "-tier", *tier, "-seed", fmt.Sprint(wseed), "-worker", fmt.Sprint(wj), "-nworkers", fmt.Sprint(wn),
 				"-budget", fmt.Sprint(budget), "-out", out, "-known", kfPath, "-replaydir", replayDir}
+			if isRace[j] {
+				a = append(a, "-racelog", filepath.Join(work, fmt.Sprintf("race%d.log", j)))
+			}
 			if *tier == "thorough" {
 				a = append(a, "-minimise", "300")
 			}
-			c := exec.Command(bin, a...)
+			c := exec.Command(wbin, a...)
 			var stderr bytes.Buffer
 			c.Stderr = &stderr
 			c.Stdout = &stderr
-			if *race {
-				c.Env = append(os.Environ(), "GORACE=halt_on_error=1 exitcode=66")
+			if isRace[j] {
+				c.Env = append(os.Environ(), "GORACE=halt_on_error=0 exitcode=0")
 			}
 			done := make(chan error, 1)
 			if err := c.Start(); err != nil {
@@ -230,6 +275,7 @@ func main() {
 	total := workerResult{Stats: map[string]int{}, ByScenario: map[string]int{}, KnownHits: map[string]int{}}
 	distinct := map[uint64]struct{}{}
 	var harness []string
+	raceRuns := 0
 	for j, r := range results {
 		if fails[j] != "" {
 			harness = append(harness, fails[j])
@@ -238,6 +284,9 @@ func main() {
 			continue
 		}
 		total.Runs += r.Runs
+		if isRace[j] {
+			raceRuns += r.Runs
+		}
 		total.Directed += r.Directed
 		total.NonTrivial += r.NonTrivial
 		total.Steps += r.Steps
@@ -273,6 +322,7 @@ func main() {
 		var rp struct {
 			Signature string `json:"signature"`
 			Message   string `json:"message"`
+			Race      bool   `json:"race"`
 		}
 		b, _ := os.ReadFile(p)
 		json.Unmarshal(b, &rp)
@@ -280,7 +330,14 @@ func main() {
 			os.Remove(p)
 			continue
 		}
-		c := exec.Command(bin, "-replay", p, "-known", kfPath)
+		rbin := bin
+		if rp.Race {
+			rbin = binRace
+		}
+		c := exec.Command(rbin, "-replay", p, "-known", kfPath)
+		if rp.Race {
+			c.Env = append(os.Environ(), "GORACE=halt_on_error=0 exitcode=0")
+		}
 		out, err := c.CombinedOutput()
 		code := 0
 		if ee, ok := err.(*exec.ExitError); ok {
@@ -346,7 +403,8 @@ func main() {
 			"real_vs_stub":           meta.RealStub,
 			"workers":                *nw,
 			"build_s":                buildS,
-			"race_build":             *race,
+			"race_build":             wantRace,
+			"runs_under_race_detector": raceRuns,
 			"sonic_files_rewritten":  res.Files,
 		},
 		"assumptions": meta.Assumptions,
